@@ -93,6 +93,8 @@ def shrink_case(ck, case, gvh, oracle, g0, o0, budget=120):
         return (gg != oo and gg.split()[0] == g0.split()[0] and oo.split()[0] == o0.split()[0]
                 and not oo.startswith(("oracle_error", "HANG", "MISSING")) and not gg.startswith(("HANG", "MISSING")))
     import copy
+    if g0.startswith("HANG"):
+        return None             # every candidate would cost a time-out
     b = copy.deepcopy(case["ast"])
     if not fails(b):
         return None
@@ -166,7 +168,7 @@ def run(tier, seed):
             ck.notes.append("known finding %s: the witness no longer fails (repaired?)" % fid)
 
     # ---------------- generated programs
-    nprog = int(vlib.os.environ.get("VERIF_NPROG", 0)) or (900 if tier == "quick" else 20000)
+    nprog = int(vlib.os.environ.get("VERIF_NPROG", 0)) or (900 if tier == "quick" else 10000)
     rounds = 1 if tier == "quick" else 3
     total = {"same": 0, "diff": 0, "known": 0, "discarded": 0}
     feats_all, kinds_all = {}, {}
@@ -221,6 +223,8 @@ def run(tier, seed):
     if not ok_obl:
         ck.violation("proof obligations of C01 no longer check: " + str(ck.cov.get("obligation_failure", ""))[:300],
                      {"kind": "proof", "theorem_file": PROP, "detail": ck.cov.get("obligation_failure")}, no_input=True)
+    if tier == "thorough":
+        ck.coqchk(["GV.Properties.C01"])
     ck.cov["comparison"] = total
     ck.cov["exhaustive"] = False
     return ck.finish(
